@@ -94,7 +94,7 @@ fn account(l: &mut Local, k: u64, rs: u64, sc: &Scenario, bins: &Bins, root: &Pa
     let dir = my_dir(root);
     let o = match std::panic::catch_unwind(std::panic::AssertUnwindSafe(|| cli::run(sc, bins, &dir, crlf))) {
         Ok(o) => o,
-        Err(p) => harness_error(&format!("E4 executor failed: {}", crate::panic_message(&p))),
+        Err(p) => harness_error(&format!("E4 executor failed: {}", crate::panic_message(&p).trim_start_matches("harness: "))),
     };
     if enumerated { l.enum_runs += 1 } else { l.runs += 1 }
     l.c.add(&o.counters);
